@@ -171,7 +171,7 @@ def w_any(t):
 def run(ctx):
     step = 64
     ctx.pmap(w_any, [("c", (lo, lo + step, ctx.seed, ctx.thorough)) for lo in range(0, 8192, step)] +
-             [("q", (k, 5 if ctx.thorough else 4)) for k in ("bits", "altcode", "adsb")])
+             [("q", (k, 5 if ctx.thorough else 4)) for k in ("bits", "altcode", "adsb")], ambient=True)
     ctx.cov["exhaustive"] = True
     ctx.cov["bound"] = "all 8192/4096 codes; bg-1 on %s" % ("all codes" if ctx.thorough else "a 31-code subset")
     ctx.cov["gillham_codes"] = len(GIL)
